@@ -24,6 +24,8 @@ EXTRA = [
     "a(i) = b(i) * c(i) + d(i) * e(i)",
     "a(i) = (b(i) + c(i)) * (d(i) + e(i))",
     "a(i) = 0.1 * b(i) + 0.2",
+    "a(i) = b(i) - c(i)",
+    "a(i,j) = b(i,j) - c(i,j) * d(j)",
 ]
 
 
@@ -35,10 +37,14 @@ def main():
     for tpl in templates:
         for fm in S.format_choices(tpl, rng, cfg.get("fmt_cap", 2)):
             problems.append((tpl, fm))
-    head, tail = problems[: 2 * len(EXTRA)], problems[2 * len(EXTRA):]
+    # the first format choices of every EXTRA template are always kept; make sure the plain
+    # dense-output / sparse-first-operand variants of the subtraction templates are among them
+    problems.insert(0, ("a(i) = b(i) - c(i)", {"a": "d", "b": "s", "c": "d"}))
+    problems.insert(1, ("a(i,j) = b(i,j) - c(i,j) * d(j)", {"a": "dd", "b": "ds", "c": "dd", "d": "d"}))
+    head, tail = problems[: 2 * len(EXTRA) + 2], problems[2 * len(EXTRA) + 2:]
     rng.shuffle(tail)
     problems = (head + tail)[: cfg.get("max_problems", 30)]
-    fvals = [0.1, 0.2, 0.3, 1e16, -1.0, 0.7, 1.5, 3.0]
+    fvals = [0.1, 0.2, 0.3, 1e16, -1.0, 0.7, 1.5, 3.0, 0.0, 0.0, -0.0]
     index = {"compared": 0, "differences": [], "errors": [], "skipped": {}, "shards": []}
     defs, cases, metas = [], [], []
     for pno, (tpl, fm) in enumerate(problems):
@@ -54,6 +60,18 @@ def main():
                 consts = [0.1, 0.2, 0.3, 1e16, 0.7]
                 ins = {n: {"dims": v["dims"], "entries": {c: consts[k % len(consts)] for c in itertools.product(*[range(d) for d in v["dims"]])}}
                        for k, (n, v) in enumerate(ins.items())}
+            elif rep == 1:
+                # signed zeros: the first input keeps a sparse pattern, the others are full and
+                # hold exact zeros of both signs (bit-identity includes the sign of zero)
+                import itertools
+                new = {}
+                for k, (n, v) in enumerate(ins.items()):
+                    cells = list(itertools.product(*[range(d) for d in v["dims"]]))
+                    if k == 0:
+                        new[n] = {"dims": v["dims"], "entries": {c: rng.choice([0.5, -1.5]) for c in cells if rng.random() < 0.4}}
+                    else:
+                        new[n] = {"dims": v["dims"], "entries": {c: rng.choice([0.0, 0.0, -0.0, 2.0]) for c in cells}}
+                ins = new
             else:
                 ins = {n: {"dims": v["dims"], "entries": {c: rng.choice(fvals) for c in v["entries"]}} for n, v in ins.items()}
             st1, o1 = S.run_evaluate(tpl, fm, ins, backend="llvm")
